@@ -355,12 +355,57 @@ def _injection_target(ctx):
     ctx.floor("injections into a sub-parser", n, 2)
 
 
+def _plain_path_selects_that_node(ctx):
+    """`{?a.b}` names one node: the node whose path *is* a.b.  Decided as a table over concrete cells (query 'a.b'
+    against the node names a.b, a.b.c, a.bc, x.a.b and a): on the iteration paths of NodeList.query the valuation
+    allows, a node is appended exactly for the equal name.  Descendants (a.b.c) handed out as well turn an injection
+    from a node that has nodes below it into an error and make an import copy more than was asked for."""
+    from ..flowexpr import explore, consistent
+    rel = "src/scinumtools/dip/lists/list_nodes.py"
+    fn = ctx.fn(rel, "NodeList.query")
+    pa = [a.arg for a in fn.args.args]
+    pq = pa[1] if len(pa) > 1 else "query"
+    ex = explore(fn)
+    n = 0
+    for name, want in (("a.b", True), ("a.b.c", False), ("a.bc", False), ("x.a.b", False), ("a", False)):
+        what = f"plain path cell query='a.b' node='{name}': selected={want}"
+        outcomes, unk_all = set(), []
+        for lp, start, its in ex.iterations.values():
+            if not isinstance(lp, ast.For):
+                continue
+            tv = norm(lp.target)
+
+            def atom(e, _name=name, _tv=tv):
+                val = {pq: "a.b", "Sign.SEPARATOR": ".", "Sign.WILDCARD": "*"}
+                for x in ast.walk(e):
+                    if isinstance(x, ast.Attribute) and x.attr == "name" and norm(x.value).split("@")[0] == _tv:
+                        val[norm(x)] = _name
+                return K.concrete_truth(e, val)
+            ps, unk = consistent(its, atom, 0)
+            unk_all += unk
+            for q in ps:
+                app = any(e.kind in ("expr", "call") and isinstance(e.resolved, ast.AST) and ".append(" in norm(e.resolved) for e in q.events[start:])
+                outcomes.add(app)
+        if not outcomes:
+            ctx.unrecognised(rel, "NodeList.query", what, f"no iteration path decided by the cell: {sorted(set(unk_all))[:2]}")
+            continue
+        n += 1
+        if outcomes == {want}:
+            ctx.holds(rel, "NodeList.query", what)
+        elif len(outcomes) == 1:
+            ctx.violated(rel, "NodeList.query", what, detail=f"selected={outcomes.pop()}", expected=f"selected={want}")
+        else:
+            ctx.unrecognised(rel, "NodeList.query", what, "both outcomes on paths the cell allows")
+    ctx.floor("plain path cells", n, 5)
+
+
 def _relative_names(ctx):
     """`{?path.*}`: a selected descendant keeps its name relative to `path.`, i.e. the name with that *leading* prefix cut
     off once.  Removing every occurrence of the prefix text (str.replace), stripping a character set (lstrip) or keeping
     the last piece of a split changes names that contain the prefix text again further down."""
     import re as _re
     from ..flowexpr import explore
+    _plain_path_selects_that_node(ctx)
     rel = "src/scinumtools/dip/lists/list_nodes.py"
     fn = ctx.fn(rel, "NodeList.query")
     ex = explore(fn)
